@@ -60,11 +60,15 @@ of ANY table of the connection (#entries, #postings, the typed tables #transacti
 """
 import json
 import random
+import time
 
 from harness import balance as hb
 from harness import isolate as iso
 from harness import sched
 from harness.core import MachineryError
+
+import sys as _sys
+LIMIT0 = _sys.getrecursionlimit()      # the interpreter's recursion limit when the check starts (see placement_leg)
 
 KNOWN_THREADS = 'threads:balance-cache:interleaved'
 KNOWN_SERIAL = 'serial:balance-cache:interposed-scan'
@@ -397,6 +401,10 @@ def run(ctx):
         'Isolate: delivery steps are driven by the harness thread itself (it hands the turn over after execute() has '
         'returned and before every fetch); a description is projected to the kinds of its columns (the statements name '
         'their targets c<n> / f<n> / p<n> / q<n>); rowcount / rownumber / iteration over the cursor are not observed',
+        'placement (law leg, harness/ambient.py): the check runs on the thread that imported beanquery (the main thread); '
+        'its serial outcomes are the reference for executions on fresh threads and from scheduled threads, compared by '
+        'repr (digits and types).  Nesting depths 8 and 30 are meant to be far from the depth (about 15) the parser '
+        'reaches under the default recursion limit of 1000, so that the stack the harness itself uses does not decide',
     ]
     rng = ctx.rng
     sched.register()
@@ -441,6 +449,7 @@ def run(ctx):
     ctx.leg('S2C', replays=n, all_schedules_of_the_enumerated_configurations_replayed=not q,
             note='3x3 (3 threads x 3 rows x 2 pauses) is sampled by simulation in both tiers')
     shared_text_leg(ctx, ctx.pick(90, 1500))
+    placement_leg(ctx)
     isolate_finish(ctx, background)
     ctx.exhaustive = False
     # ---- C2S
@@ -543,6 +552,21 @@ def shared_text_leg(ctx, nruns):
                 break
     ctx.leg('S2C', shared_text_runs=nruns, shared_text_bad=bad)
 
+
+
+# ---- which thread evaluates: interpreter state kept per thread / per process (harness/ambient.py) -----------------------------
+def placement_leg(ctx):
+    """LAW leg: statements sensitive to the interpreter's ambient state (decimal context: inexact arithmetic; recursion
+    limit: deep nesting) executed one after another on the importing thread = alone on fresh threads = from scheduled
+    threads descheduled inside the parser and at row steps.  The relation is the property's own; no expected values."""
+    from harness import ambient
+    sched.register()
+    register_yieldpoint()
+    t0 = time.monotonic()
+    counts = ambient.run(ctx, ctx.seed + 606, limit0=LIMIT0)
+    counts['wall_s'] = round(time.monotonic() - t0, 1)
+    ctx.log('LAW placement: %s' % counts)
+    ctx.leg('LAW-placement', **counts)
 
 
 # ---- the whole execution: compilation + scan, plain columns, parameters (spec/Isolate.tla) -----------------------------------
@@ -960,6 +984,14 @@ def replay(ctx, rep):
         same = json.loads(json.dumps(show({1: rows}), default=str)) == exp
         print('replay:', 'no mismatch' if same else 'MISMATCH reproduced')
         return 0 if same else 1
+    if case.get('kind') == 'placement':
+        # outcomes depend on the placement (which thread, what the others are in the middle of): the leg is re-run whole
+        from harness import ambient
+        register_yieldpoint()
+        counts = ambient.run(ctx, rep.get('seed', ctx.seed) + 606, limit0=LIMIT0)
+        print('replay: placement leg:', counts)
+        print('replay:', 'MISMATCH reproduced' if counts['bad'] else 'no mismatch (every placement = serial execution)')
+        return 1 if counts['bad'] else 0
     if case.get('kind') == 'attr':
         import beanquery
         print('replay: beanquery.threadsafety =', getattr(beanquery, 'threadsafety', None))
